@@ -86,6 +86,57 @@ def random_scenarios(chk, n, pid="C01"):
         CC.check_font_pictures(chk, font, cfg, srcs, glyphs, tol, f"random scenario {k} [{flavour}]", replay, deltas=deltas)
 
 
+def coincidence_scenarios(chk, n, pid="C01"):
+    """Integer-lattice axis-aligned copies (scale exactly 1 on one axis, integer scale centres) and thin-bar overflow
+    fallbacks: coincidences random floats never hit."""
+    for k in range(n):
+        r = common.rng(pid, "lattice", k)
+        if k % 4 == 3:
+            glyphs, variant = S.thin_bar_scenario(r), dict(S.LATTICE_CONFIG)
+        else:
+            glyphs, variant = S.lattice_scenario(r), dict(S.LATTICE_CONFIG if k % 3 else {"upem": 100, "ascender": 100, "descender": 0, "width": 100})
+        tol = 0.1
+        cfgkw = dict(color_format=r.choice(["glyf_colr_1", "glyf_colr_1", "cff_colr_1"]), reuse_tolerance=tol,
+                     keep_glyph_names=True, clip_to_viewbox=False, **variant)
+        cfg = build.base_config(**cfgkw)
+        srcs = CC.sources_from(glyphs)
+        replay = {"kind": "coincidence-scenario", "seed": [chk.seed, k], "config": {a: str(b) for a, b in cfgkw.items()},
+                  "svgs": [s.svg_text for s in srcs]}
+        chk.case(key=("lattice", k), nontrivial=True)
+        chk.traces_validated += 1
+        try:
+            _, font = build.build(cfg, srcs, already_pico=True)
+        except Exception as e:
+            chk.violation(f"valid sources fail to compile: {type(e).__name__}: {str(e)[:200]}", replay)
+            continue
+        CC.check_font_pictures(chk, font, cfg, srcs, glyphs, tol, f"coincidence scenario {k}", replay,
+                               deltas=CC.layer_deltas(glyphs, cfg, tol))
+
+
+KF_RADIAL = "radial-gradient-uniform-part-overflows-int16"
+
+
+def radial_overflow_finding(chk):
+    """An objectBoundingBox radial gradient on a very thin shape: the uniform part of the decomposition multiplies the
+    circle centres by the bbox aspect ratio and overflows int16 at PARSE time, so a valid source does not compile."""
+    import traceback
+
+    r = common.rng("C01", "kf-radial")
+    glyphs = S.thin_bar_scenario(r, parse_overflow=True)
+    cfg = build.base_config(color_format="glyf_colr_1", keep_glyph_names=True, clip_to_viewbox=False)
+    srcs = CC.sources_from(glyphs)
+    chk.case(key="kf-radial", nontrivial=True)
+    try:
+        build.build(cfg, srcs, already_pico=True)
+    except OverflowError as e:
+        tb = traceback.format_exc()
+        key = KF_RADIAL if ("_parse_radial_gradient" in tb and "check_overflows" in tb) else None
+        chk.violation(f"a picosvg-normal source with an objectBoundingBox radial gradient on a thin bar does not compile: {e}",
+                      {"svgs": [s.svg_text for s in srcs]}, finding_key=key)
+    except Exception as e:
+        chk.violation(f"valid source fails to compile: {type(e).__name__}: {e}", {"svgs": [s.svg_text for s in srcs]})
+
+
 def corpus(chk):
     """Every sample SVG of the repository that picosvg accepts."""
     from picosvg.svg import SVG
@@ -127,9 +178,11 @@ def run(chk):
     )
     recs = CC.run_compile_model(chk, "quick" if quick else "small")
     chk.notes["model_scenarios"] = len(recs)
-    replay_model_scenarios(chk, recs, 120 if quick else 2500)
-    random_scenarios(chk, 80 if quick else 2500)
+    replay_model_scenarios(chk, recs, 90 if quick else 2500)
+    random_scenarios(chk, 60 if quick else 2500)
+    coincidence_scenarios(chk, 60 if quick else 2000)
     corpus(chk)
+    radial_overflow_finding(chk)
     compile_trace.run(chk, 30 if quick else 400)
     chk.assumptions += [
         "COLRv1 semantics as implemented by harness/oracle_colr.py (validated against 44 repository SVGs and, for "
